@@ -522,3 +522,72 @@ def run_raw(exe, lines, env=None, timeout=1800, cpus=None):
     if outs and outs[-1] == "":
         outs.pop()
     return outs, p.stderr, p.returncode
+
+
+# ---------------------------------------------------------------- Route V
+def _zl(xs):
+    return "[" + "; ".join(str(x) for x in xs) + "]"
+
+
+def route_v_cases(rng, nq):
+    """(driver line, Gallina term of type list Z) pairs for integer-only model functions"""
+    out = []
+    R = 13108968793781547619861935127046491459309155893440570251786403306729687672801
+    for _ in range(nq):
+        k = rng.randrange(8)
+        if k == 0:
+            n, m = rng.randrange(0, 300), rng.randrange(1, 40)
+            out.append(("rv ranges %d %d" % (n, m), "flat_map (fun r : Z * Z => [fst r; snd r]) (execute_ranges %d %d)" % (n, m)))
+        elif k == 1:
+            w, s_ = rng.choice([8, 16]), rng.choice([rng.randrange(R), (1 << rng.randrange(1, 253)) - 1, R - 1])
+            out.append(("rv pcdigits %d %d" % (w, s_), "(let p := pc_digits %d %d in fst p ++ [snd p])" % (w, s_)))
+        elif k == 2:
+            b = [rng.randrange(256) for _ in range(rng.choice([0, 1, 55, 56, 64, 70]))]
+            out.append(("rv sha %s" % ("".join("%02x" % x for x in b) or "-"), "sha256 %s" % _zl(b)))
+        elif k == 3:
+            v = rng.choice([0, 1, R - 1, rng.randrange(R)])
+            out.append(("rv leenc %d" % v, "(fr_bytes_le (fr %d) ++ fr_bytes (fr %d))" % (v, v)))
+        elif k == 4:
+            v = rng.choice([R - 1, R, R + 1, rng.randrange(1 << 256)])
+            b = list(v.to_bytes(32, "little"))
+            out.append(("rv lec %s" % "".join("%02x" % x for x in b),
+                        "(match fst (fr_set_bytes_le_canonical %s) with Some x => [1; zval x] | None => [0] end)" % _zl(b)))
+        elif k == 5:
+            a, b = rng.randrange(R), rng.choice([R - 1, rng.randrange(R)])
+            out.append(("rv mul %d %d" % (a, b),
+                        "(let '(r0, r1, r2, r3) := mul_generic (limbs_of %d) (limbs_of %d) in [r0; r1; r2; r3])" % (a, b)))
+        elif k == 6:
+            c, s_ = rng.choice([4, 5, 8, 11, 16]), rng.choice([rng.randrange(R), rng.randrange(1 << 64), R - 1])
+            out.append(("rv part %d %d" % (c, s_), "(let p := partition_scalars %d [%d] in fst p ++ [snd p])" % (c, s_)))
+        else:
+            sc = rng.randrange(R)
+            out.append(("rv tr 6c62 %d" % sc, "map zval (c_transcript_run [108; 98] [TScalar %d [115]; TChallenge [99]])" % sc))
+    return out
+
+
+def route_v(ctx, nq=40):
+    """cross-check of the extraction: the kernel (vm_compute) evaluates the same Gallina terms that the
+    extracted OCaml model evaluated; any difference is a framework error (extraction / driver), not a
+    property violation.  Recorded in the evidence."""
+    cases = route_v_cases(random.Random(ctx.seed * 7919 + int(ctx.pid[1:])), nq)
+    outs = run_lines(ctx.model(), [c[0] for c in cases], env=model_env(), shards=1)
+    body = []
+    for (line, term), o in zip(cases, outs):
+        if o.startswith(("EXC", "CRASH", "HANG", "ERR")):
+            raise FrameworkError("route V: model failed on %r: %s" % (line, o[:200]))
+        body.append("  (%s, %s)" % (term, _zl(o.split())))
+    d = os.path.join(BUILD, "routev")
+    os.makedirs(d, exist_ok=True)
+    src = os.path.join(d, "cases_%s.v" % ctx.pid)
+    open(src, "w").write(
+        "From Coq Require Import ZArith List Bool.\nFrom GoIpa Require Import Model.Parallel Model.Bytes Model.Zq Model.Sha256 "
+        "Model.Alg Model.Transcript Model.Codec Model.Pippenger Model.Mont Model.Precomp Model.Concrete.\n"
+        "Import ListNotations.\nOpen Scope Z_scope.\n"
+        "Definition cases : list (list Z * list Z) := [\n" + ";\n".join(body) + "\n].\n"
+        "Definition nbad := Eval vm_compute in length (filter (fun p : list Z * list Z => negb (list_eqb (fst p) (snd p))) cases).\n"
+        "Print nbad.\n")
+    rc, o, e = sh(["coqc", "-q", "-Q", COQ, "GoIpa", src, "-o", os.path.join(d, "cases_%s.vo" % ctx.pid)], timeout=900)
+    ok = rc == 0 and re.search(r"nbad\s*=\s*0\b", o) is not None
+    ctx.extra["route_v"] = {"cases": len(cases), "agree": ok}
+    if not ok:
+        raise FrameworkError("route V: kernel evaluation and extracted model disagree or coqc failed:\n" + (o + e)[-1500:])
